@@ -43,9 +43,10 @@ func genC05(t *rapid.T) KeyCase {
 	}
 	ranges := []axisRange{{0, 255}, {0, 255}, {-128, 127}, {-32768, 32767}, {-1, 1}, {0, 1023}, {0, 65535}, {-127, 127}, {0, 4}, {1, 255}}
 	kinds := rapid.SliceOfN(rapid.IntRange(0, 4), 1, 4).Draw(t, "axisKinds")
+	c05Codes := drawAxisCodes(t, []uint16{0, 1, 2, 3}, len(kinds))
 	for i, k := range kinds {
 		rg := rapid.SampledFrom(ranges).Draw(t, "range")
-		a := AxisDef{Sub: "", Code: uint16(i), Min: rg.Min, Max: rg.Max}
+		a := AxisDef{Sub: "", Code: c05Codes[i], Min: rg.Min, Max: rg.Max}
 		if rapid.Bool().Draw(t, "hasOff") {
 			a.Off = intp(corner(t, "aoff", 0, 15, -1, 16, 255, 256, 300))
 		}
